@@ -129,6 +129,25 @@ type memoryDatabase struct {
 	lock     sync.RWMutex // lock of create metric store
 }
 
+// lastCreatedTime is the created time given to the previous memory database.
+var lastCreatedTime atomic.Int64
+
+// nextCreatedTime returns a created timestamp(ns) that is unique in this process,
+// because it keys the metric level time range of the memory database in the time series index
+// (fasttime only moves every few milliseconds).
+func nextCreatedTime() int64 {
+	for {
+		now := fasttime.UnixNano()
+		last := lastCreatedTime.Load()
+		if now <= last {
+			now = last + 1
+		}
+		if lastCreatedTime.CompareAndSwap(last, now) {
+			return now
+		}
+	}
+}
+
 // NewMemoryDatabase returns a new MemoryDatabase.
 func NewMemoryDatabase(cfg *MemoryDatabaseCfg) (MemoryDatabase, error) {
 	db := &memoryDatabase{
@@ -137,7 +156,7 @@ func NewMemoryDatabase(cfg *MemoryDatabaseCfg) (MemoryDatabase, error) {
 		familyTime:    cfg.FamilyTime,
 		name:          cfg.Name,
 		timeSeriesIDs: roaring.New(),
-		createdTime:   fasttime.UnixNano(),
+		createdTime:   nextCreatedTime(),
 		statistics:    metrics.NewMemDBStatistics(cfg.Name),
 	}
 	return db, nil
